@@ -761,8 +761,13 @@ func judgeVary(r *Run, j *Judged, c *cls) {
 	}
 	// the Vary field in effect is the one of the stored header fields as served (a 304 may have replaced it)
 	vh := c.B.Header
-	if c.H != nil && c.H != c.B && len(c.H.Header.Values("Vary")) > 0 {
-		vh = c.H.Header
+	if c.H != nil && c.H != c.B {
+		if len(c.H.Header.Values("Vary")) > 0 {
+			vh = c.H.Header
+		} else if eff, _ := r.effectiveStored(c.B, e.SeqInv); len(eff.Values("Vary")) > 0 {
+			// the last 304 brought no Vary: the one in effect is what an earlier 304 of the chain left
+			vh = eff
+		}
 	}
 	fields, star := varyFields(vh)
 	if star {
